@@ -317,6 +317,7 @@ structure State where
   events : List Event := []           -- ghost: everything observable, in order
   seenIds : List Id := []             -- ghost: ids of all `new` requests received so far
   handled : Nat := 0                  -- ghost: number of mailbox messages handled so far
+  underflow : Bool := false           -- ghost: some `release` gave back more than the peer had allocated
 deriving Repr, DecidableEq
 
 -- ------------------------------------------------------------------ small helpers
@@ -426,9 +427,12 @@ def grantLoop : Nat → State → Peer → State
         grantLoop fuel (grantTo s1 w.party) p
       else s
 
+/-- ReleaseBlockMemory.  The real allocator clamps at zero (C13.release_clamped) and so does `-` on
+    `Nat`; the ghost flag `underflow` records whether the clamp was ever needed, and the correspondence
+    driver turns a set flag into a divergence, so every run checks that release amounts fit. -/
 def release (s : State) (p : Peer) (n : Nat) : State :=
   let q := getMQ s p
-  let s1 := setMQ s { q with allocated := q.allocated - n }
+  let s1 := setMQ { s with underflow := s.underflow || decide (q.allocated < n) } { q with allocated := q.allocated - n }
   grantLoop s1.waiting.length s1 p
 
 /-- AllocateBlockMemory: granted at once iff nothing of this peer waits and it fits -/
